@@ -765,12 +765,13 @@ PROPS["C19"] = dict(
          "shortcut, edge data void / uint32, read balancing "
          "BALANCED_EDGES_OF_MASTERS / BALANCED_MASTERS / "
          "BALANCED_MASTERS_AND_EDGES, asynchronous and synchronous master "
-         "assignment; hosts 1..4. quick: all 73 small graphs x all 11 "
-         "policies at h=2 (CSR), x 6 policies at h=3, CSC on every third "
-         "graph, the structured family with uint32 data at h=1..4 and the "
-         "option variants on it (2274 cases). thorough: the m<=3 family x "
-         "all policies at h=2,3 and the full option cross product on the "
-         "structured family at h=1..4. executions = partitions run and "
+         "assignment; hosts 1..4. quick: all 259 graphs with m<=3 x all 11 "
+         "policies at h=2 (CSR), all 73 with m<=2 x all policies at h=2 "
+         "(CSC) and h=3 (CSR), the structured family with uint32 data at "
+         "h=1..4 and the option variants on it (5213 cases). thorough: the m<=3 family x "
+         "all policies at h=2,3, every n<=3 graph with 4 edges at h=2 and "
+         "every 4-node graph with m<=2 at h=2,3,4 x all policies, and the "
+         "full option cross product on the structured family at h=1..4. executions = partitions run and "
          "checked; states = distinct (graph, configuration, hosts); "
          "transitions = host partitions inspected; non-trivial = at least "
          "one mirror proxy exists",
